@@ -334,7 +334,8 @@ class MCNP_Problem:
                 ParticleTypeNotInCell,
             ) as e:
                 handle_error(e)
-        for input in self._data_inputs:
+        # materials remove their MT input from the list while it is walked
+        for input in list(self._data_inputs):
             try:
                 input.update_pointers(self._data_inputs)
             except (
